@@ -41,7 +41,37 @@ def functions_for(pid):
     return sorted(out)
 
 
+def _cache_key(key):
+    import hashlib, glob
+    h = hashlib.sha256(key.encode())
+    from . import extract
+    files = sorted(glob.glob(os.path.join(HERE, "pyvc", "*.py")) + glob.glob(os.path.join(HERE, "contracts", "*.py")) +
+                   glob.glob(os.path.join(extract.REPO, "jsonrpclib", "*.py")))
+    for f in files:
+        with open(f, "rb") as fh:
+            h.update(fh.read())
+    h.update(str(_verify_one.pid).encode())
+    return h.hexdigest()[:24]
+
+
 def _verify_one(key):
+    import logging
+    logging.disable(logging.CRITICAL)       # the repository logs warnings while counterexamples are replayed
+    if os.environ.get("VERIF_CACHE") == "1":    # development aid only: never set by the registered commands
+        cdir = os.path.join(HERE, ".cache")
+        os.makedirs(cdir, exist_ok=True)
+        cpath = os.path.join(cdir, _cache_key(key) + ".json")
+        if os.path.exists(cpath):
+            with open(cpath) as fh:
+                return json.load(fh)
+        out = _verify_one_nocache(key)
+        with open(cpath, "w") as fh:
+            json.dump(out, fh, default=str)
+        return out
+    return _verify_one_nocache(key)
+
+
+def _verify_one_nocache(key):
     base = load_all()
     from . import verify, cex
     from .contracts import REGISTRY
